@@ -116,6 +116,7 @@ def lk_integral(spec, u, rep):
 @st.composite
 def strat_exponent(draw, tier):
     spec = draw(model_spec(families=("hem", "merton", "vg", "cgmy", "bs"), exp=False))
+    spec["route"] = draw(st.sampled_from(["direct", "direct", "direct", "updated"]))
     if spec["family"] == "bs":
         spec["exp"] = None
     gm, gp = _decay(spec)
@@ -310,6 +311,8 @@ def strat_martingale(draw, tier):
     if include_bs:
         spec = {"family": "bs", "params": {"sigma": draw(_f(0.01, 0.6))},
                 "exp": {"spot": draw(_f(1.0, 500.0)), "r": draw(_f(0.0, 0.1)), "d": draw(_f(0.0, 0.1))}}
+    if not include_bs:
+        spec["route"] = draw(st.sampled_from(["direct", "direct", "updated"]))
     return {"model": spec, "T": draw(_f(0.1, 3.0)),
             "grid": {"type": draw(st.sampled_from(["uniform", "geometric"])), "h_rel": draw(_f(0.1, 1.0)),
                      "p": 0.99999, "k": draw(st.integers(6, 12)), "refine": draw(st.integers(0, 1)), "dimension": 1}}
@@ -381,7 +384,7 @@ def body_martingale(case):
 
 def classify_martingale(case):
     br = branch_of(case["model"])
-    return [br, case["grid"]["type"]], True
+    return [br, case["grid"]["type"], "parameters-" + case["model"].get("route", "direct")], True
 
 
 SUBCHECKS = [
@@ -390,22 +393,22 @@ SUBCHECKS = [
                   "the strip of analyticity: levy_exponent(u) vs i u a - sigma^2 u^2/2 + quadrature of "
                   "(e^{iux} - 1 - iux c_declared(x)) nu(x), real and imaginary parts separately; non-trivial = "
                   "complex u, CGMY special branch, or diffusion plus jumps",
-             strategy=strat_exponent, budget={"quick": 480, "thorough": 8000},
+             strategy=strat_exponent, budget={"quick": 1440, "thorough": 8000},
              essential_labels=("cgmy/y=0", "cgmy/y=1", "cgmy/y<0", "complex")),
     SubCheck("cumulants", body_cumulants, classify_cumulants,
              rule="every stated cumulant (1,2,4,6; all six for Black-Scholes) vs n-th derivative of the exponent at "
                   "0 from a 256-node Cauchy integral, plain and exponential models",
-             strategy=strat_cumulants, budget={"quick": 320, "thorough": 5000}),
+             strategy=strat_cumulants, budget={"quick": 960, "thorough": 5000}),
     SubCheck("representation-changes", body_conversions, classify_conversions,
              rule="sequences of 1..6 set_representation calls over the representations valid for the model (ZERO "
                   "only for finite variation), optional re-based drift: after every call a must equal the "
                   "definition (quadrature of x nu on |x|<1 / |x|>=1), and returning to the start restores a; "
                   "non-trivial = >= 2 changes",
-             strategy=strat_conversions, budget={"quick": 320, "thorough": 5000}),
+             strategy=strat_conversions, budget={"quick": 960, "thorough": 5000}),
     SubCheck("martingale-routes", body_martingale, classify_martingale,
              rule="exponential models x maturity: characteristic function at -i, direct-simulation drift (HEM, "
                   "Merton, BS), Markov-chain drift on uniform/geometric grids (0-1 refinements) under the exact "
                   "truncated jump law, all against S0 exp((r-d)T)",
-             strategy=strat_martingale, budget={"quick": 160, "thorough": 2400},
+             strategy=strat_martingale, budget={"quick": 480, "thorough": 2400},
              shards={"quick": 16, "thorough": 16}),
 ]
